@@ -494,7 +494,10 @@ func (w *worker[T, JobType]) stopAndRemoveAllWorkers() {
 }
 
 func (w *worker[T, JobType]) start() error {
-	if w.IsRunning() {
+	// Every Bind*/With* call defers start(). Only a worker that has never been
+	// started (or that Restart has just reset) may be started: starting a paused
+	// or stopped one would silently resume it and add a second event loop.
+	if w.status.Load() != initiated {
 		return ErrRunningWorker
 	}
 
